@@ -146,7 +146,12 @@ def decodeSpec (num : Nat) (toks : List String) : Option Property := do
     | "any" => pure (Schema.any false [] lr)
     | _ => none
   let schema : FieldSchema ←
-    if m.get "arr" == "1" then do
+    if m.get "arr" == "m" then do
+      -- map:<kind>; `ar` = map rules message present, amin / amax = minPairs / maxPairs
+      let amin ← optNat (m.get "amin"); let amax ← optNat (m.get "amax")
+      let asf ← optStr (m.get "asf")
+      pure (FieldSchema.map item (if m.get "ar" == "1" then some { minPairs := amin, maxPairs := amax } else none) asf)
+    else if m.get "arr" == "1" then do
       let amin ← optNat (m.get "amin"); let amax ← optNat (m.get "amax"); let auniq ← optBool (m.get "auniq")
       let asf ← optStr (m.get "asf")
       pure (FieldSchema.array item (if m.get "ar" == "1" then some { minItems := amin, maxItems := amax, uniqueItems := auniq } else none) asf)
@@ -197,6 +202,9 @@ def showFC : Option FieldC → String
       | .repeated r =>
         let items := match r.items with | none => "~" | some ic => "(" ++ showItemC ic ++ ")"
         s!"t=rep(min={showOptNat r.minItems},max={showOptNat r.maxItems},uniq={showOptB r.unique},items={items})"
+      | .map m =>
+        let values := match m.values with | none => "~" | some ic => "(" ++ showItemC ic ++ ")"
+        s!"t=map(min={showOptNat m.minPairs},max={showOptNat m.maxPairs},values={values})"
     s!"fc(req={showOptB c.required},{t})"
 
 /-! ## candidate values -/
@@ -224,6 +232,13 @@ def zeroScalar : Schema → Scalar
 def parseVal (optPres : Bool) (p : Property) (tok : String) : Option FieldVal :=
   match p.schema with
   | .array s _ _ =>
+    if tok == "~" then some (.list [])
+    else if tok.startsWith "[" && tok.endsWith "]" then
+      let inner := ((tok.drop 1).dropRight 1).toString
+      if inner.isEmpty then some (.list []) else ((inner.splitOn ",").mapM (parseScalar s)).map FieldVal.list
+    else none
+  -- a map is given by its values (the harness uses the keys k0, k1, …)
+  | .map s _ _ =>
     if tok == "~" then some (.list [])
     else if tok.startsWith "[" && tok.endsWith "]" then
       let inner := ((tok.drop 1).dropRight 1).toString
@@ -449,6 +464,8 @@ def showFlat (p : Property) : String :=
     | .array _ rules sf =>
       ("1", showOptNat (rules.bind (·.minItems)), showOptNat (rules.bind (·.maxItems)),
        showOptB (rules.bind (·.uniqueItems)), showOptHex sf)
+    | .map _ rules sf =>
+      ("m", showOptNat (rules.bind (·.minPairs)), showOptNat (rules.bind (·.maxPairs)), "~", showOptHex sf)
   let desc := if p.description.isEmpty then "~" else hexStr p.description
   String.intercalate " " [
     s!"name={hexStr p.name}", s!"num={p.number}", s!"req={b01 p.required}", s!"opt={b01 p.explicitlyOptional}", s!"desc={desc}",
